@@ -15,6 +15,7 @@ from __future__ import annotations
 
 import ast
 import re as _re
+from collections.abc import Iterator as _Iterator
 from typing import Any, Callable
 
 from .loader import AnalysisError, ClassInfo, FuncInfo, Module, Repo, norm
@@ -871,6 +872,8 @@ class Interp:
             return list(v)
         if isinstance(v, OrderedBag):
             return list(v.items)
+        if isinstance(v, _Iterator):
+            return list(v)  # consumes it, as a for-loop would
         if isinstance(v, Obj):
             if v.slots is not None:
                 return list(v.slots)
@@ -1227,7 +1230,8 @@ class Interp:
             start = kwargs.get("start", args[1] if len(args) > 1 else 0)
             return [(i + start, v) for i, v in enumerate(self.iterate(a0, node))]
         if name == "zip":
-            return list(zip(*[self.iterate(a, node) for a in args]))
+            # real iterators (from iter()) are consumed alternately, as in Python: zip(it, it) pairs consecutive items
+            return list(zip(*[a if isinstance(a, _Iterator) else self.iterate(a, node) for a in args]))
         if name == "range":
             return list(range(*args))
         if name in ("min", "max", "sum"):
@@ -1244,6 +1248,13 @@ class Interp:
                 return {"min": min, "max": max}[name](its, **kw2)
             except ValueError as e:
                 raise Raised("ValueError", (str(e),), node, BUILTIN_EXC["ValueError"]) from None
+        if name == "next" and isinstance(a0, _Iterator):
+            try:
+                return next(a0)
+            except StopIteration:
+                if len(args) > 1:
+                    return args[1]
+                raise Raised("StopIteration", (), node, BUILTIN_EXC["StopIteration"]) from None
         if name == "next":
             items = self.iterate(a0, node)
             if items:
@@ -1252,7 +1263,7 @@ class Interp:
                 return args[1]
             raise Raised("StopIteration", (), node, BUILTIN_EXC["StopIteration"])
         if name == "iter":
-            return self.iterate(a0, node)
+            return iter(self.iterate(a0, node))
         if name == "repr":
             return repr(a0)
         if name == "hash":
